@@ -63,9 +63,9 @@ ARemoveRow == \E i \in Idx(R) : Do("remove_row", [index |-> i], 0)
 APopRow    == Do("pop_row", NoArg, 0)
 ARemoveCol == \E i \in Idx(C) : Do("remove_col", [index |-> i], 0)
 APopCol    == Do("pop_col", NoArg, 0)
-ADrain     == \/ \E op \in DrainOps \ {"d_nth", "d_nth_back"} : Do(op, NoArg, 0)
+ADrain     == \/ \E op \in DrainOps \ {"d_nth", "d_nth_back", "d_find"} : Do(op, NoArg, 0)
               \/ /\ handle.kind # "none"
-                 /\ \E op \in {"d_nth", "d_nth_back"} :
+                 /\ \E op \in {"d_nth", "d_nth_back", "d_find"} :
                       \E k \in Small(Len(handle.items) - handle.f - handle.b) \cup {1000} : Do(op, [n |-> k], 0)
 
 (* ---- whole-array calls ---- *)
@@ -162,7 +162,7 @@ FDrop == /\ "drop" \in Faults
             \/ handle.kind # "none" /\ \E k \in 0..(Len(handle.items) - handle.f - handle.b) : DoFault("d_drop", NoArg, PanicAt("drop", k), << >>, 0)
 \* the closure given to fold / rfold on a drain panics at its k-th call (the drain has been moved into the call)
 FClosure == /\ "closure" \in Faults /\ handle.kind # "none"
-            /\ \E op \in {"d_fold", "d_rfold"}, k \in 0..(Len(handle.items) - handle.f - handle.b) :
+            /\ \E op \in {"d_fold", "d_rfold", "d_for_each"}, k \in 0..(Len(handle.items) - handle.f - handle.b) :
                   DoFault(op, NoArg, PanicAt("closure", k), << >>, 0)
 \* the comparator panics at its k-th call
 FCmp == /\ "cmp" \in Faults
